@@ -35,7 +35,11 @@ def k_none_rule(prog: Program, rep, RID: str):
         call = None
         holder = None
         for st in walk_no_nested(f.node):
-            if isinstance(st, ast.Assign) and any(dotted(t) == "self.k" for t in st.targets) and isinstance(st.value, ast.Call) and \
+            # `self.k = W` or, when the parameter is resolved before it is stored, `k = W` followed by `self.k = k`
+            stores_k = any(dotted(t) == "self.k" for t in st.targets) if isinstance(st, ast.Assign) else False
+            local_k = isinstance(st, ast.Assign) and any(isinstance(t, ast.Name) and t.id == "k" for t in st.targets) and \
+                any(isinstance(s2, ast.Assign) and any(dotted(t) == "self.k" for t in s2.targets) and norm(s2.value) == "k" and s2.lineno > st.lineno for s2 in walk_no_nested(f.node))
+            if isinstance(st, ast.Assign) and (stores_k or local_k) and isinstance(st.value, ast.Call) and \
                     isinstance(st.value.func, ast.Attribute) and st.value.func.attr == "get_width":
                 call, holder = st.value, st
         key = f"{cname}.__init__:k=None"
